@@ -72,6 +72,10 @@ def generic_aggregate(
     if func in ["nanfirst", "nanlast"] and array.dtype.kind in "US":
         func = func[3:]
 
+    if func in ["nanargmax", "nanargmin"] and array.dtype.kind in "iub":
+        # integers have no NaN; the nan-skipping kernels go through float64 and lose integers beyond 2**53
+        func = func[3:]
+
     if engine == "flox":
         try:
             method = getattr(aggregate_flox, func)
